@@ -41,7 +41,9 @@ def run_one(sid):
             out["error"] = a.stderr[-300:]
             return out
         t0 = time.time()
-        c = sh("./check %s --tier quick" % prop, cwd=ROOT, env=dict(os.environ, LABELLA_REPO=wt, VERIF_SEED="0"))
+        # evidence of a run against a scratch tree must not replace the committed evidence (which describes /repo)
+        c = sh("./check %s --tier quick" % prop, cwd=ROOT,
+               env=dict(os.environ, LABELLA_REPO=wt, VERIF_SEED="0", PYVC_EVIDENCE_DIR=os.path.join(wt, "_evidence")))
         out["rc"] = c.returncode
         out["wall_s"] = round(time.time() - t0, 1)
         lines = c.stdout.splitlines()
